@@ -810,6 +810,9 @@ func Run(s Scenario) *Outcome {
 	time.Sleep(20*time.Second + slowLogSlack)
 	synctest.Wait()
 	earlyWG.Wait()
+	// a probe waits 60 virtual seconds (100 ms ticks) plus four keepalive periods: a link that died silently after the
+	// recovery (an armed second failure) is only noticed one interval plus one timeout later
+	probeTicks := 600 + 40*s.PingMs/1000
 	// phase B writes + probes
 	for _, u := range ups {
 		write(u, s.WritesB, time.Millisecond)
@@ -833,7 +836,7 @@ func Run(s Scenario) *Outcome {
 			}
 			continue
 		}
-		for i := 0; i < 600; i++ {
+		for i := 0; i < probeTicks; i++ {
 			_, _, acksNow, _ := u.out.Rec.Snapshot()
 			if len(acksNow) > len(acksBefore) {
 				u.out.ProbeOK = true
@@ -842,12 +845,12 @@ func Run(s Scenario) *Outcome {
 			time.Sleep(100 * time.Millisecond)
 		}
 		if !u.out.ProbeOK {
-			u.out.ProbeErr = "no ack reached the ack hook within 60 virtual seconds after a write+flush on the recovered connection"
+			u.out.ProbeErr = "no ack reached the ack hook within 60 virtual seconds (plus four keepalive periods) after a write+flush on the recovered connection"
 		}
 	}
 	for i, d := range downs {
 		before := readCount[i].Load()
-		for k := 0; k < 600; k++ {
+		for k := 0; k < probeTicks; k++ {
 			if readCount[i].Load() > before {
 				d.out.ProbeOK = true
 				break
@@ -855,7 +858,7 @@ func Run(s Scenario) *Outcome {
 			time.Sleep(100 * time.Millisecond)
 		}
 		if !d.out.ProbeOK {
-			d.out.ProbeErr = "no chunk pushed by the broker was returned by ReadDataPoints within 60 virtual seconds on the recovered connection"
+			d.out.ProbeErr = "no chunk pushed by the broker was returned by ReadDataPoints within 60 virtual seconds (plus four keepalive periods) on the recovered connection"
 		}
 	}
 	close(stopPush)
